@@ -960,6 +960,76 @@ func c12RandomCase(r *vRand, ids, streams []string, n int) []string {
 	return lines
 }
 
+// ---------------------------------------------------------------- a deleted stream's name is used again
+
+// c12RecreateCase: members subscribe to stream S (and others), some or all of S's subscribers leave again (so that S is
+// deleted with or WITHOUT subscribers while the group lives on through the other streams), S is deleted, a stream of
+// that name is created again with another partition count, members join for it. Nothing the group remembers about the
+// first S may leak into the second.
+func c12RecreateCase(r *vRand, res *vResult) []string {
+	choices := []int{1, 2, 3, 4, 5}
+	streams := []string{"a", "b", "c"}
+	cnt := map[string]int{}
+	for _, s := range streams {
+		cnt[s] = choices[r.Intn(len(choices))]
+	}
+	cfg := func() string {
+		var out []string
+		for _, s := range streams {
+			if cnt[s] > 0 {
+				out = append(out, fmt.Sprintf("%s=%d", s, cnt[s]))
+			}
+		}
+		return strings.Join(out, ",")
+	}
+	S := streams[r.Intn(3)]
+	T := streams[(strings.Index("abc", S)+1+r.Intn(2))%3]
+	lines := []string{"c12 begin " + cfg()}
+	e := 0
+	op := func(format string, a ...interface{}) { e++; lines = append(lines, fmt.Sprintf(format, a...)) }
+	op("c12 join v %d %s", e+1, T) // keeps the group alive
+	var onS []string
+	for _, id := range []string{"w", "x"}[:1+r.Intn(2)] {
+		ss := S
+		if r.Bool() {
+			ss = S + "," + T
+		}
+		op("c12 join %s %d %s", id, e+1, ss)
+		onS = append(onS, id)
+	}
+	switch r.Intn(3) {
+	case 0: // S is deleted with its subscribers
+		res.Dist("recreate:deleted-with-subscribers")
+	case 1: // S has lost all its subscribers when it is deleted
+		for _, id := range onS {
+			op("c12 leave %s %d", id, e+1)
+		}
+		onS = nil
+		res.Dist("recreate:deleted-without-subscribers")
+	default:
+		op("c12 leave %s %d", onS[0], e+1)
+		onS = onS[1:]
+		res.Dist(fmt.Sprintf("recreate:deleted-with-%d-subscribers", len(onS)))
+	}
+	old := cnt[S]
+	cnt[S] = 0
+	lines = append(lines, "c12 setparts "+cfg())
+	op("c12 deleted %s %d", S, e+1)
+	for cnt[S] == 0 || cnt[S] == old {
+		cnt[S] = choices[r.Intn(len(choices))]
+	}
+	lines = append(lines, "c12 setparts "+cfg())
+	for _, id := range []string{"y", "z"}[:1+r.Intn(2)] {
+		ss := S
+		if r.Intn(3) == 0 {
+			ss = S + "," + T
+		}
+		op("c12 join %s %d %s", id, e+1, ss)
+	}
+	lines = append(lines, fmt.Sprintf("c12 get y %d", e), "c12 state")
+	return lines
+}
+
 // ---------------------------------------------------------------- skewed loads, then deletions
 
 // c12SkewCase: groups whose members have OVERLAPPING BUT DIFFERENT subscriptions over 2-4 streams of
@@ -1356,6 +1426,49 @@ func (cx *c12Ctx) fsm(n int) (nLost int) {
 	return nLost
 }
 
+// fsmRecreate: a stream a group member is subscribed to is deleted and a stream of that name is created again
+// (other partition count). The subscription dies with the first incarnation on every server - whether it applied the
+// log live or replays it at start-up (where the deletion only tombstones the stream and the re-creation un-tombstones
+// it: AddStream closes and removes the first incarnation, which is what tells the groups). No group op follows the
+// deletion, so neither of the two known orderings (asynchronous notification, end-of-replay notification) can show.
+func (cx *c12Ctx) fsmRecreate(n int) {
+	// (the group hears of the deletion with the index of the delete entry when the log is applied live, and with the
+	// index of the re-creating entry when it is replayed: same members, subscriptions and assignments either way)
+	wants := map[bool]string{}
+	hists := map[bool][]string{}
+	for replayed, idx := range map[bool]int{false: 5, true: 6} {
+		hists[replayed] = []string{"c12 begin a=2,b=2", "c12 join x 0 a,b", "c12 join y 4 b", "c12 setparts b=2", fmt.Sprintf("c12 deleted a %d", idx), "c12 setparts a=3,b=2"}
+		m := cx.model.Ask(append(append([]string(nil), hists[replayed]...), "c12 state"))
+		wants[replayed] = m[len(m)-1]
+	}
+	for i := 0; i < n; i++ {
+		for _, replayed := range []bool{false, true} {
+			want, hist := wants[replayed], hists[replayed]
+			// log: 1 create a(2)  2 create b(2)  3 create group g{x:a,b}  4 join y{b}  5 delete a  6 create a(3)
+			st, err := c12FSMRun([]c12Entry{
+				{c12LogStream("a", 2), true}, {c12LogStream("b", 2), true}, {c12LogGroup("x", "a", "b"), replayed}, {c12LogJoin("y", "b"), replayed},
+				{c12LogDelete("a"), replayed}, {c12LogStream("a", 3), true},
+			}, replayed)
+			name := map[bool]string{false: "live", true: "replayed"}[replayed]
+			cx.res.Count(fmt.Sprintf("fsm-recreate:%s:%d", name, i), true)
+			switch {
+			case err != nil:
+				cx.res.Dist("fsm-recreate:error")
+				cx.res.Fail(vFailure{Kind: "disagreement", Case: hist, Detail: "FSM re-create path (" + name + ") could not be run: " + err.Error()})
+				return
+			case "ok "+st == want:
+				cx.res.Dist("fsm-recreate:" + name + ":subscription-ended-with-the-deleted-stream")
+			default:
+				cx.res.Dist("fsm-recreate:" + name + ":other")
+				cx.res.Fail(vFailure{Kind: "spec", Case: hist, Impl: []string{st}, Model: []string{want}, Tag: "group-recreated-stream-" + name,
+					Detail: fmt.Sprintf("the log [create a(2), b(2); create group g{x:a,b}; join y{b}; delete a; create a(3)] %s through Server.apply leaves group g in %s; "+
+						"the subscription of x to the first stream a ended with that stream, so the group must be in %s (as on every server that applied the deletion)", name, st, want)})
+				return
+			}
+		}
+	}
+}
+
 // ---------------------------------------------------------------- test
 
 func TestVerifC12(t *testing.T) {
@@ -1386,9 +1499,11 @@ func TestVerifC12(t *testing.T) {
 	if vThorough() {
 		cx.fsm(300)
 		cx.fsmRecovery(50)
+		cx.fsmRecreate(50)
 	} else {
 		cx.fsm(40)
 		cx.fsmRecovery(10)
+		cx.fsmRecreate(8)
 	}
 	res.Note(fmt.Sprintf("on this code base: StreamDeleted can be delivered after a later group op: %v; a start-up replay delivers deletions after the rest of the log: %v",
 		cx.racing, cx.reorders))
@@ -1503,6 +1618,18 @@ func TestVerifC12(t *testing.T) {
 			lines := c12SkewCase(r, res)
 			res.Dist("skew")
 			cx.judge(lines, true, "skew")
+		}
+	}
+
+	// --- a deleted stream's name is used again, with another partition count
+	{
+		r := vNewRand(1213)
+		n := 300
+		if vThorough() {
+			n = 6000
+		}
+		for i := 0; i < n; i++ {
+			cx.judge(c12RecreateCase(r, res), true, "recreate")
 		}
 	}
 
